@@ -653,7 +653,8 @@ func (fr *Frame) applyModifies(env *SpecEnv, c *Contract, pre *Heap) *Heap {
 	}
 	post := pre.Havoc(only, "m")
 	al := pre.Get("$alloc")
-	for n, locs := range byName {
+	for _, n := range sortedKeysOf(byName) { // sorted: the order fixes the order of declarations in the query
+		locs := byName[n]
 		if whole[n] {
 			continue
 		}
